@@ -382,6 +382,10 @@ def main(prop: str, tier: str) -> int:
             traces.append(sr.events)
             meta.append({'recipe': sr.recipe, 'kind': 'random-schedule', 'backend': 'maildir', 'schedule': log})
         run.notes['maildir_schedules'] = nm
+        if prop == 'C17':
+            n0 = len(traces)
+            maildir_recent_histories(traces, meta)
+            run.notes['maildir_recent_directed'] = len(traces) - n0
         if prop == 'C02':
             # directed: a \\Seen-setting FETCH of session a with session b's flag change placed
             # after each of its checkpoints
@@ -493,6 +497,63 @@ def main(prop: str, tier: str) -> int:
     for m in (meta[0], meta[len(behs)] if len(meta) > len(behs) else meta[-1]):
         run.sample(m)
     return run.finish()
+
+
+def maildir_recent_histories(traces, meta) -> None:
+    """C17 on maildir, directed: every connection has its own SelectedSet there, so a message
+    another connection delivers into a mailbox somebody has selected waits in new/ until the next
+    read-write SELECT claims it.  While it waits the selecting session copies it (onto its own
+    mailbox or elsewhere), moves it, changes its flags (the file is renamed inside new/), closes -
+    and a third connection then SELECTs: the message and its copy must be \\Recent for at most one
+    session, and for the first read-write session that is told about them.  Also: files a
+    delivery agent dropped into new/ without an info suffix."""
+    F = ('\\Flagged',)
+    for mid in ('copy', 'move', 'store', 'storeclose', 'external', 'externalstore'):
+        for dest in ('INBOX', 'Box'):
+            for csel in ('INBOX', 'Box'):
+                if mid == 'move' and dest == 'INBOX':
+                    continue            # MOVE onto the selected maildir mailbox: open C10 finding
+                if mid not in ('copy', 'move') and dest != csel:
+                    continue
+                sr = SyncRun(backend='maildir', init_flags=[()], sessions=['a', 'b', 'c'],
+                             controlled=True, claim_recent=True, boxes=('Box',))
+                log = []
+
+                def do(s, c):
+                    sr.issue(s, c)
+                    sr.finish(s)
+                    log.append(('cmd', s, c))
+                try:
+                    home = 'INBOX' if mid in ('copy', 'move') else dest
+                    do('a', ('select', home))
+                    do('a', ('fetch', False, '1:*', False))
+                    if mid.startswith('external'):
+                        sr.deliver_external(home)
+                        log.append(('external', home))
+                    else:
+                        do('b', ('append', home, 1, ()))
+                    do('a', ('noop',))
+                    do('a', ('fetch', False, '1:*', False))
+                    last = '2' if home == 'INBOX' else '1'
+                    if mid in ('copy', 'move'):
+                        do('a', (mid, False, last, dest))
+                    elif mid in ('store', 'storeclose', 'externalstore'):
+                        do('a', ('store', False, last, '+', False, F))
+                    if mid == 'storeclose':
+                        do('a', ('close',))
+                    else:
+                        do('a', ('fetch', False, '1:*', False))
+                    do('c', ('select', csel))
+                    do('c', ('fetch', False, '1:*', False))
+                    do('a', ('noop',))
+                    sr.quiesce()
+                    sr.probe()
+                finally:
+                    sr.close()
+                traces.append(sr.events)
+                meta.append({'recipe': sr.recipe, 'kind': 'maildir-recent-directed',
+                             'backend': 'maildir', 'mid': mid, 'dest': dest, 'third': csel,
+                             'schedule': log})
 
 
 def slow_idler_histories(traces, meta) -> None:
